@@ -1,7 +1,8 @@
 """C07 — per-property knobs of ./check (see DESIGN.md §6 C07, notes/C07.md)."""
 THEOREMS_TIED = ["Rustic.Props.C07.uploaded_exactly_added", "Rustic.Props.C07.rebackup_adds_nothing",
                  "Rustic.Props.C07.added_blobs_are_not_indexed", "Rustic.Props.C07.full_backup_adds_every_new_chunk",
-                 "Rustic.Props.C07.edit_reuploads_only_disturbed_chunks", "Rustic.Props.C07.tree_and_data_with_equal_id_both_stored"]
+                 "Rustic.Props.C07.edit_reuploads_only_disturbed_chunks", "Rustic.Props.C07.tree_and_data_with_equal_id_both_stored",
+                 "Rustic.Props.C07.settled_blob_is_never_stored_again", "Rustic.Props.C07.indexed_never_shrinks"]
 
 TRUSTED = [
     "hand-written models lean/Rustic/Model/Archive.lean (archiver pipeline + packer pipeline as a transition system), Model/Tree.lean, Model/Parent.lean, Model/Chunker.lean + Rabin.lean (C06)",
